@@ -2847,6 +2847,14 @@ class EEA:
     def schema_class_of_call(self, e: ast.Call, fr: Frame) -> ClassInfo | None:
         if isinstance(e.func, ast.Attribute) and isinstance(e.func.value, ast.Call) and isinstance(e.func.value.func, ast.Name) and e.func.value.func.id == "super":
             return fr.callee.cls or fr.func.cls
+        if isinstance(e.func, ast.Attribute) and isinstance(e.func.value, ast.Name) and fr.func.cls is not None and fr.func.positional_params[:1] == [e.func.value.id] and fr.func.cls.find_method(e.func.attr) is None:
+            # `self._dump(x)` with `self._dump = self._schema.dump` stored once in __init__: the receiver of that method
+            init_ = (fr.callee.cls or fr.func.cls).find_method("__init__")
+            st_ = [n_.value for n_ in (self.I.own_nodes(init_) if init_ is not None else []) if isinstance(n_, (ast.Assign, ast.AnnAssign)) and n_.value is not None and any(isinstance(t_, ast.Attribute) and t_.attr == e.func.attr and isinstance(t_.value, ast.Name) for t_ in (n_.targets if isinstance(n_, ast.Assign) else [n_.target]))]
+            if len(st_) == 1 and isinstance(st_[0], ast.Attribute):
+                c_ = self._repo_class_of_type(self.prog.type_of(init_.module, st_[0].value))
+                if c_ is not None:
+                    return c_
         if isinstance(e.func, ast.Attribute):
             return self._repo_class_of_type(self.prog.type_of(fr.module, e.func.value))
         if isinstance(e.func, ast.Name):
